@@ -278,6 +278,45 @@ def canon_wrapper(f, mod, name, ep):
     return lines
 
 
+def api_aliases(f, mod, trait_rx):
+    """`api <Assoc>=<Type>:<arg,arg,..>` for every associated type of the impl of ContractApi / InterfaceMessagesApi
+    (model-independent observation: the alias must name the generated type with the parameters it declares, in order)"""
+    lines = []
+    for k, v in f.kv:
+        mm = re.fullmatch(r"(%s::impl#\d+)\|impl" % re.escape(mod), k)
+        if not mm or not re.search(trait_rx, v):
+            continue
+        pre = mm.group(1) + "::"
+        for k2, v2 in f.kv:
+            if k2.startswith(pre) and k2.endswith("|assoc_type"):
+                name = k2[len(pre):-len("|assoc_type")]
+                ty = v2.split(";ty=", 1)[1] if ";ty=" in v2 else v2
+                m = re.fullmatch(r"\s*(\w+)\s*(?:<(.*)>)?\s*", ty)
+                if m:
+                    args = [nows(a) for a in split_top(m.group(2) or "")] if m.group(2) else []
+                    lines.append("api %s=%s:%s" % (name, m.group(1), ",".join(a for a in args if a)))
+                else:
+                    lines.append("api %s=?%s" % (name, nows(ty)))
+    return lines
+
+
+def split_top(s):
+    out, depth, cur = [], 0, ""
+    for ch in s:
+        if ch in "<([":
+            depth += 1
+        elif ch in ">)]":
+            depth -= 1
+        if ch == "," and depth == 0:
+            out.append(cur)
+            cur = ""
+        else:
+            cur += ch
+    if cur.strip():
+        out.append(cur)
+    return out
+
+
 def canon_contract(kv):
     f = kv if isinstance(kv, Facts) else Facts(kv)
     if f.status != "accepted":
@@ -290,6 +329,7 @@ def canon_contract(kv):
     lines += canon_struct(f, mod, "MigrateMsg")
     for name, ep in (("ContractExecMsg", "execute"), ("ContractQueryMsg", "query"), ("ContractSudoMsg", "sudo")):
         lines += canon_wrapper(f, mod, name, ep)
+    lines += api_aliases(f, mod, r"trait=[^;]*\bContractApi\b")
     return lines
 
 
@@ -301,4 +341,5 @@ def canon_iface(kv, iface_name):
     mod = "::sv"
     for base in ("ExecMsg", "QueryMsg", "SudoMsg"):
         lines += canon_enum_full(f, mod, base, iface_name + base)
+    lines += api_aliases(f, mod, r"trait=[^;]*\bInterfaceMessagesApi\b")
     return lines
